@@ -446,6 +446,37 @@ def wide_field_cases(tier='quick'):
     return out
 
 
+def same_shape_other_bitmap_cases():
+    """[(name, Case)]: uncompressed messages whose subsets expand to exactly the same descriptors while their bitmaps select
+    different elements (the same number of zero bits at other positions) -- the structure of a subset cannot be taken from
+    its neighbour.  Quality information (222000) and substituted-value markers (224000 / 224255).  Deterministic."""
+    out = []
+
+    def meta(n, edition=4):
+        m = dict(frame.default_meta(edition))
+        m.update({'master_table_version': 33, 'n_subsets': n, 'is_compressed': False})
+        return m
+    # 001001 001002 012101 | 222000 | 3 bits | factor | 033007 values
+    ids = [1001, 1002, 12101, 222000, 101003, 31031, 101000, 31001, 33007]
+    rows = []
+    for k, bits in enumerate(([0, 1, 1], [1, 0, 1], [1, 1, 0], [0, 1, 1])):
+        rows.append([10 + k, 100 + k, 27000 + k] + bits + [1, 50 + k])
+    out.append(('qa_one_zero_bit_moving', case_from_raws(meta(4), ids, subsets=rows)))
+    rows = []
+    for k, bits in enumerate(([0, 0, 1], [1, 0, 0], [0, 1, 0])):
+        rows.append([20 + k, 200 + k, 28000 + k] + bits + [2, 60 + k, 70 + k])
+    out.append(('qa_two_zero_bits_moving', case_from_raws(meta(3, 3), ids, subsets=rows)))
+    # 001001 001002 | 224000 236000 | 2 bits | 008023 | factor | 224255 values   then the bitmap re-used by a 223000 block
+    ids = [1001, 1002, 224000, 236000, 101002, 31031, 8023, 101000, 31001, 224255, 223000, 237000, 101000, 31001, 223255]
+    rows = []
+    for k, bits in enumerate(([0, 1], [1, 0], [0, 1])):
+        rows.append([30 + k, 300 + k] + bits + [4, 1, 40 + k, 1, 90 + k])
+    out.append(('markers_one_zero_bit_moving', case_from_raws(meta(3), ids, subsets=rows)))
+    for name, c in out:
+        c.features.add('same_descriptors_other_bitmap')
+    return out
+
+
 def boundary_cases(tier='quick'):
     """[(name, Case)]: hand-laid-out messages at the numeric limits of the format's own fields -- replication counts of
     255 and beyond 8 / toward 16 bits, 63 replicated descriptors, bitmaps longer than 255 bits, subset counts beyond
